@@ -399,3 +399,90 @@ def c16_e2e(R):
                   except Exception as e:
                       print('raised', type(e).__name__, e); print('REPLAY-CONFIRMED')
                   """) if hist else None)
+
+
+@family("C16.e2e.types", props=["C16"], functions=["nsl.passes.ComputeTypes::ComputeTypeVisitor.v_Module", "nsl.types::IsCompatible", "nsl.types::StructType", L + "::FilesystemModuleLoader.Load", L + "::Linker.Link"],
+        assumptions=["BOUNDED stand-in (never counted as proved): one three-function program whose functions pass a struct (and an array of ints) through their signatures, partitioned as one module / "
+                     "lib+main / diamond (the struct's module imported by two modules that a fourth imports), compiled separately, stored with pickle, imported by name through the real file loader, linked and run"])
+def c16_e2e_types(R):
+    """Functions whose signatures use a struct type declared in an imported module: every partition is accepted and behaves like the single module
+    (a type that reaches a module along two import paths is ONE type)."""
+    import io, contextlib, os, pickle, tempfile, shutil
+    from nsl import Compiler, LinearIR, VM
+    S = "struct P { int a; int b; int[2] t; }\n"
+    MK = "function mk(int x) -> P { P p; p.a = x; p.b = (x * 2); p.t[1] = x; return p; }"
+    USE = "function usep(P p) -> int { return ((p.a + p.b) + p.t[1]); }"
+    TOP = "export function top(int x) -> int { return usep(mk(x)); }"
+    partitions = {
+        "one-module": [("one", S + MK + "\n" + USE + "\n" + TOP)],
+        "lib+main": [("tla", S + MK + "\n" + USE), ("tma", 'import "tla";\n' + TOP)],
+        "chain": [("tca", S + MK), ("tcb", 'import "tca";\n' + USE), ("tcc", 'import "tcb";\nimport "tca";\n' + TOP)],
+        "diamond": [("tda", S + "function idp(P p) -> P { return p; }"), ("tdb", 'import "tda";\n' + MK), ("tdc", 'import "tda";\n' + USE), ("tdd", 'import "tdb";\nimport "tdc";\n' + TOP)],
+    }
+    cwd = os.getcwd()
+    tmp = tempfile.mkdtemp(prefix="nslverif-c16t-")
+    results = {}
+    try:
+        os.chdir(tmp)
+        for pname, mods in partitions.items():
+            got = None
+            for name, src in mods:
+                try:
+                    with contextlib.redirect_stdout(io.StringIO()):
+                        r = Compiler.Compiler().Compile(src)
+                    if r is None:
+                        raise RuntimeError("Compile returned None")
+                    with open(name + ".nslir", "wb") as fh:
+                        pickle.dump(r.IRModule, fh)
+                except BaseException as e:
+                    if isinstance(e, KeyboardInterrupt):
+                        raise
+                    got = f"module {name} rejected: {type(e).__name__}: {str(e)[:100]}"
+                    break
+            if got is None:
+                try:
+                    lk = LinearIR.Linker(loader=LinearIR.FilesystemModuleLoader())
+                    lk.AddModule(LinearIR.FilesystemModuleLoader().Load(mods[-1][0]))
+                    prog = lk.Link()
+                    got = [VM.VirtualMachine(prog).Invoke("top", x=x) for x in (0, 3, -5)]
+                except BaseException as e:
+                    if isinstance(e, KeyboardInterrupt):
+                        raise
+                    got = f"raised {type(e).__name__}: {str(e)[:100]}"
+            results[pname] = got
+    finally:
+        os.chdir(cwd)
+        shutil.rmtree(tmp, ignore_errors=True)
+    # whatever makes two copies of one declared type one type must keep DIFFERENT struct types apart (name, field types, array sizes, field order)
+    import collections as _c, pickle as _p
+    from nsl import types as ty
+    def mkS(name="P", fields=(("a", ty.Integer()), ("t", ty.ArrayType(ty.Integer(), [2])))):
+        return ty.StructType(name, _c.OrderedDict(fields))
+    base = mkS()
+    others = [mkS(name="Q"), mkS(fields=(("a", ty.Integer()),)), mkS(fields=(("a", ty.Float()), ("t", ty.ArrayType(ty.Integer(), [2])))),
+              mkS(fields=(("a", ty.Integer()), ("t", ty.ArrayType(ty.Integer(), [3])))), mkS(fields=(("t", ty.ArrayType(ty.Integer(), [2])), ("a", ty.Integer())))]
+    diff_ok = all(not ty.IsCompatible(base, o) and not ty.IsCompatible(o, base) and ty.Match(base, o) == -1 for o in others)
+    R.check("C16.types.other-structs-stay-distinct", "nsl.types::IsCompatible", diff_ok,
+            detail="a struct with another name, other field types, other array sizes or another field order is compatible with the original")
+    want = [0, 12, -20]
+    for pname, got in results.items():
+        R.bounded(f"C16.e2e.types[{pname}]", "nsl.passes.ComputeTypes::ComputeTypeVisitor.v_Module", got == want, 3,
+                  detail=f"top(0, 3, -5) = {got}, expected {want} (as the single module)\n" + "\n--\n".join(f"[{n}]\n{s}" for n, s in partitions[pname]),
+                  replay=script("""
+                      import io, contextlib, os, pickle, tempfile, atexit, shutil
+                      from nsl import Compiler, LinearIR, VM
+                      _d = tempfile.mkdtemp(prefix='nslverif-c16t-'); os.chdir(_d); atexit.register(lambda: (os.chdir('/'), shutil.rmtree(_d, ignore_errors=True)))
+                      mods = {{mods}}
+                      try:
+                          for name, src in mods:
+                              with contextlib.redirect_stdout(io.StringIO()):
+                                  r = Compiler.Compiler().Compile(src)
+                              pickle.dump(r.IRModule, open(name + '.nslir', 'wb'))
+                          lk = LinearIR.Linker(loader=LinearIR.FilesystemModuleLoader())
+                          lk.AddModule(LinearIR.FilesystemModuleLoader().Load(mods[-1][0]))
+                          got = [VM.VirtualMachine(lk.Link()).Invoke('top', x=x) for x in (0, 3, -5)]
+                          print(got, 'expected [0, 12, -20]')
+                          if got != [0, 12, -20]: print('REPLAY-CONFIRMED')
+                      except BaseException as e:
+                          print('raised', type(e).__name__, str(e)[:200]); print('REPLAY-CONFIRMED')
+                      """, mods=[list(m) for m in partitions[pname]]))
